@@ -3,7 +3,7 @@
    Print Assumptions.  GENERATED skeleton (tools/mkprops.py), statements are the ones Coq prints for the lemmas. *)
 From Coq Require Import ZArith List Bool String Reals.
 From VQ Require Import Num Model.Vec Model.Core Proofs.CoreNearest Glue.CoreGlue.
-From VQ Require Import Model.Einops Model.Layout Glue.EinopsGlue.
+From VQ Require Import Model.Einops Model.Layout Glue.EinopsGlueBase Glue.EinopsGlueHeads.
 Import ListNotations.
 Open Scope R_scope.
 
@@ -187,7 +187,7 @@ Theorem C01_src_heads_shared_in :
           (n < e "n")%nat ->
           (d < e "d")%nat ->
           @rearr A p e (@of3 A X) [0%nat; bh; n; d] = @heads_shared_in A (e "h") (e "d") X bh n d).
-Proof. exact (@EinopsGlue.einops_heads_shared_in). Qed.
+Proof. exact (@EinopsGlueHeads.einops_heads_shared_in). Qed.
 Print Assumptions C01_src_heads_shared_in.
 
 (* implicit *)
@@ -203,7 +203,7 @@ Theorem C01_src_heads_sep_in :
           (b < e "b")%nat ->
           (n < e "n")%nat ->
           (d < e "d")%nat -> @rearr A p e (@of3 A X) [h; b; n; d] = @heads_sep_in A (e "d") X h b n d).
-Proof. exact (@EinopsGlue.einops_heads_sep_in). Qed.
+Proof. exact (@EinopsGlueHeads.einops_heads_sep_in). Qed.
 Print Assumptions C01_src_heads_sep_in.
 
 (* implicit *)
@@ -216,7 +216,7 @@ Theorem C01_src_heads_shared_idx :
           (b < e "b")%nat ->
           (n < e "n")%nat ->
           (h < e "h")%nat -> @rearr A p e (@of1_2 A J) [b; n; h] = @heads_shared_idx A (e "h") J b n h).
-Proof. exact (@EinopsGlue.einops_heads_shared_idx). Qed.
+Proof. exact (@EinopsGlueHeads.einops_heads_shared_idx). Qed.
 Print Assumptions C01_src_heads_shared_idx.
 
 (* implicit *)
@@ -228,5 +228,5 @@ Theorem C01_src_heads_sep_idx :
          (forall (e : env) (J : nat -> nat -> nat -> A) (b n h : nat),
           (b < e "b")%nat ->
           (n < e "n")%nat -> (h < e "h")%nat -> @rearr A p e (@of3 A J) [b; n; h] = @heads_sep_idx A J b n h).
-Proof. exact (@EinopsGlue.einops_heads_sep_idx). Qed.
+Proof. exact (@EinopsGlueHeads.einops_heads_sep_idx). Qed.
 Print Assumptions C01_src_heads_sep_idx.
